@@ -25,7 +25,7 @@ QUERY_SITE = {
     "is_topologically_closed": "is_topologically_closed", "contains_integer_point": "contains_integer_point",
     "space_dim": "space_dimension", "affine_dim": "affine_dimension", "OK": "OK",
 }
-DESC = ("cgs", "mincgs", "gens", "mingens")
+DESC = ("cgs", "mincgs", "gens", "mingens", "cgens")   # cgens: grid_generators() of a copy, after every operation
 OVERWRITE = ("new_univ", "new_empty", "new_cgs", "new_gens", "copy", "assign", "swap")
 
 
@@ -196,8 +196,6 @@ def run(ctx):
             m = re.search(r"lib=(\d+) model=(\d+)", detail)
             if m and m.group(1)[:3] == m.group(2)[:3]:
                 tags.append("saturates_bit_only")
-            if dim == 0 and f != "0" and "saturates_bit_only" in tags:
-                tags.append("zero_dim_proper_congruence_saturates")
             if div_ne_1(sta, state) and dim != 0:
                 tags.append("point_divisor_ne_1")
         if name in ("frequency", "maxmin"):
@@ -230,8 +228,7 @@ def run(ctx):
         if name == "rel_con":
             kind = args[0]
             m = re.search(r"lib=(\d+) model=(\d+)", detail)
-            if dim == 0 and kind == "2" and m and m.group(1)[:3] == m.group(2)[:3] and m.group(1)[0] == "1":
-                tags.append("zero_dim_strict_inequality_saturates")
+            _ = (kind, m)
         if name == "constrains":
             m = re.search(r"lib=(\d) model=(\d)", detail)
             if m and m.group(1) == "1" and m.group(2) == "0" and stb and "+GS" in stb and "-CS" in stb:
@@ -423,6 +420,8 @@ def run(ctx):
         reported[key] += 1
         if reported[key] > 2:          # same class: enough replays
             return None
+        if os.environ.get("C05_DEBUG"):
+            print("DEBUG hist=%d %s %s | %s | %s" % (hist.hid, site, tags, what[:400], J[ln - 1][:200]), flush=True)
         obj = {"history": hist.hid, "length": length, "journal": hist.text(ln), "line": J[ln - 1], "site": site, "tags": tags,
                "replay_cmd": replay_cmd(hist.hid)}
         obj.update(extra)
